@@ -126,3 +126,51 @@ pub proof fn lemma_v3_preimage_is_not_wire_format(n: Seq<u8>, e: Seq<u8>)
     assert((mpi_enc(n) + mpi_enc(e)).len() == n.len() + e.len() + 4);
     assert(fp_v3_preimage(n, e).len() == n.len() + e.len());
 }
+
+// ---- injectivity: a different key / user id gives a different framing (C02) ------------------
+pub proof fn lemma_seq_cancel(p: Seq<u8>, a: Seq<u8>, b: Seq<u8>, t: Seq<u8>)
+    requires p + a + t == p + b + t
+    ensures a == b
+{
+    let l = p + a + t;
+    let r = p + b + t;
+    assert(l.len() == r.len());
+    assert(a.len() == b.len());
+    assert forall|i: int| 0 <= i < a.len() implies a[i] == b[i] by {
+        assert(l[p.len() + i] == a[i]);
+        assert(r[p.len() + i] == b[i]);
+    }
+    assert(a =~= b);
+}
+pub proof fn lemma_key_frame_injective(v6: bool, a: Seq<u8>, b: Seq<u8>)
+    requires key_frame(v6, a) == key_frame(v6, b)
+    ensures a == b
+{
+    let n = if v6 { 5int } else { 3int };
+    assert(key_frame(v6, a).len() == n + a.len());
+    assert(key_frame(v6, b).len() == n + b.len());
+    assert forall|i: int| 0 <= i < a.len() implies a[i] == b[i] by {
+        assert(key_frame(v6, a)[n + i] == a[i]);
+        assert(key_frame(v6, b)[n + i] == b[i]);
+    }
+    assert(a =~= b);
+}
+pub proof fn lemma_id_frame_injective(v3: bool, attr1: bool, a: Seq<u8>, attr2: bool, b: Seq<u8>)
+    requires id_frame(v3, attr1, a) == id_frame(v3, attr2, b)
+    ensures a == b, !v3 ==> attr1 == attr2
+{
+    if v3 {
+    } else {
+        let fa = id_frame(v3, attr1, a);
+        let fb = id_frame(v3, attr2, b);
+        assert(fa.len() == 5 + a.len());
+        assert(fb.len() == 5 + b.len());
+        assert(fa[0] == (if attr1 { 0xD1u8 } else { 0xB4u8 }));
+        assert(fb[0] == (if attr2 { 0xD1u8 } else { 0xB4u8 }));
+        assert forall|i: int| 0 <= i < a.len() implies a[i] == b[i] by {
+            assert(fa[5 + i] == a[i]);
+            assert(fb[5 + i] == b[i]);
+        }
+        assert(a =~= b);
+    }
+}
